@@ -5,6 +5,7 @@ import (
 	"encoding/json"
 	"flag"
 	"fmt"
+	"hash/fnv"
 	"os"
 	"time"
 
@@ -26,6 +27,8 @@ func main() {
 		engine.CheckMain(os.Args[2:])
 	case "replay":
 		engine.ReplayMain(os.Args[2:])
+	case "sig":
+		cmdSig(os.Args[2:])
 	case "c07worker":
 		engine.C07WorkerMain(os.Args[2:])
 	default:
@@ -76,4 +79,36 @@ func cmdRun(args []string) {
 		}
 	}
 	fmt.Printf("ran %d, bad %d\n", *n, bad)
+}
+
+// cmdSig prints one line per seed with a hash of everything observable about
+// the run (event log, consumed tape, verdict, counters): the determinism
+// self-test diffs these across processes and GOMAXPROCS values.
+func cmdSig(args []string) {
+	fs := flag.NewFlagSet("sig", flag.ExitOnError)
+	prop := fs.String("prop", "C05", "property")
+	seed := fs.Uint64("seed", 1, "first seed")
+	n := fs.Int("n", 100, "number of seeds")
+	fs.Parse(args)
+	for i := 0; i < *n; i++ {
+		r := engine.RunSeed(*prop, *seed+uint64(i), "quick")
+		h := fnv.New64a()
+		for _, l := range r.Log {
+			h.Write([]byte(l))
+			h.Write([]byte{0})
+		}
+		for _, v := range r.Tape {
+			h.Write([]byte{byte(v), byte(v >> 8), byte(v >> 16), byte(v >> 24)})
+		}
+		if r.Viol != nil {
+			h.Write([]byte(r.Viol.Class))
+		}
+		h.Write([]byte(r.HarnessErr))
+		st := r.Stats
+		th := fnv.New64a()
+		for _, v := range r.Tape {
+			th.Write([]byte{byte(v), byte(v >> 8), byte(v >> 16), byte(v >> 24)})
+		}
+		fmt.Printf("%s seed=%d sig=%016x steps=%d seam=%d sched=%016x tape=%d/%08x\n", *prop, *seed+uint64(i), h.Sum64(), st.Steps, st.SeamCalls, st.Sig, len(r.Tape), uint32(th.Sum64()))
+	}
 }
